@@ -7,7 +7,7 @@ from reactivex import operators as ops
 
 from vlib.core import OK, Check
 from vlib.lab import conform
-from vlib.timeops import CLOCKS, cv, effective, execute, first_fire, fwd, judge, mk_lab, nelems, outcomes, sources, targ, triggers
+from vlib.timeops import CLOCKS, combine, cv, effective, execute_all, first_fire, fwd, judge, mk_lab, nelems, outcomes, second_sub, sources, sub_ticks, targ, triggers
 
 PROPERTY_ID = "C16"
 LEVEL = "exploration"
@@ -22,7 +22,7 @@ RULE = (
     "asynchronous or synchronous) first emits or completes, unless superseded; sample(period 1..4) and sample(sampler "
     "observable): at each tick the latest not-yet-sampled element, completion at the first tick after the source completed, "
     "source error immediately. A timer/tick and a source notification at exactly the same instant may be ordered either way "
-    "(one order per timer and instant). Non-trivial: >=1 element suppressed and >=1 emitted. Distinct = distinct case JSON."
+    "(one order per timer and instant). Non-trivial: >=1 element suppressed and >=1 emitted. In 1 case of 3 (not for sample with a sampler observable) the same built observable is subscribed a second time at a generated tick s1 in s0+{0,1,2,3,7} and the same per-subscription oracle is applied to that probe. Distinct = distinct case JSON."
 )
 ASSUMPTIONS = [
     "throttle_first windows and sample periods are > 0 (documented precondition); debounce due time >= 0",
@@ -80,7 +80,12 @@ def _run_debounce(case):
     s0, d = case["s0"], case["d"]
     src = lab.source(case["src"])
     f = ops.throttle_with_timeout if case.get("alias") else ops.debounce
-    p = execute(lab, src.pipe(f(targ(lab, case["form"], d))), s0)
+    ticks = sub_ticks(case)
+    probes = execute_all(lab, src.pipe(f(targ(lab, case["form"], d))), ticks)
+    return combine([_judge_debounce(case, lab, p, s, d) for p, s in zip(probes, ticks)], ticks)
+
+
+def _judge_debounce(case, lab, p, s0, d):
     eff = effective(case["src"], s0)
     cls = _base_cls(case)
     ts = [m[0] for m in eff]
@@ -102,7 +107,12 @@ def _run_tf(case):
     lab = mk_lab(case["clock"])
     s0, w = case["s0"], case["d"]
     src = lab.source(case["src"])
-    p = execute(lab, src.pipe(ops.throttle_first(targ(lab, case["form"], w))), s0)
+    ticks = sub_ticks(case)
+    probes = execute_all(lab, src.pipe(ops.throttle_first(targ(lab, case["form"], w))), ticks)
+    return combine([_judge_tf(case, lab, p, s, w) for p, s in zip(probes, ticks)], ticks)
+
+
+def _judge_tf(case, lab, p, s0, w):
     eff = effective(case["src"], s0)
     out, last = [], None
     cls = _base_cls(case)
@@ -151,7 +161,12 @@ def _run_twm(case):
     lab = mk_lab(case["clock"])
     s0, ths = case["s0"], case["ths"]
     src = lab.source(case["src"])
-    p = execute(lab, src.pipe(ops.throttle_with_mapper(lambda x: lab.source(ths[x]))), s0)
+    ticks = sub_ticks(case)
+    probes = execute_all(lab, src.pipe(ops.throttle_with_mapper(lambda x: lab.source(ths[x]))), ticks)
+    return combine([_judge_twm(case, lab, p, s, ths) for p, s in zip(probes, ticks)], ticks)
+
+
+def _judge_twm(case, lab, p, s0, ths):
     eff = effective(case["src"], s0)
     cls = _base_cls(case)
     for q in ths:
@@ -200,18 +215,21 @@ def _run_sample(case):
     lab = mk_lab(case["clock"])
     s0 = case["s0"]
     src = lab.source(case["src"])
-    eff = effective(case["src"], s0)
     cls = _base_cls(case)
     if "period" in case:
         per = case["period"]
-        H = max([s0] + [m[0] for m in eff]) + 2 * per + 1
-        ticks = list(range(s0 + per, H + 1, per))
+        subs = sub_ticks(case)
+        effs = [effective(case["src"], s) for s in subs]
+        H = max([max([s] + [m[0] for m in e]) for s, e in zip(subs, effs)]) + 2 * per + 1
+        tickss = [list(range(s + per, H + 1, per)) for s in subs]
         op = ops.sample(targ(lab, case["form"], per))
         cls.append("sampler:period")
     else:
+        subs = [s0]
         sm = lab.source(case["sampler"])
         seff = effective(case["sampler"], s0)
-        ticks = [m[0] for m in seff if m[1] == "N"]
+        tickss = [[m[0] for m in seff if m[1] == "N"]]
+        effs = [effective(case["src"], s0)]
         H = None
         if seff and seff[-1][1] != "N":
             H = seff[-1][0] - 1
@@ -220,15 +238,19 @@ def _run_sample(case):
                 return OK(False, cls + ["trivial-horizon"])
         op = ops.sample(sm)
         cls.append("sampler:" + case["sampler"]["kind"])
-    p = execute(lab, src.pipe(op), s0, until=H)
-    if H is not None:
-        eff = [m for m in eff if m[0] <= H]
-        ticks = [t for t in ticks if t <= H]
-    if any(m[0] in ticks for m in eff):
-        cls.append("element-at-tick-instant")
-    if eff and eff[-1][1] == "C":
-        cls.append("source-completes")
-    return _judge_nt("sample", case, lab, p, outcomes(lambda ch: _exp_sample(eff, ticks, ch)), cls, nelems({"tl": eff}))
+    probes = execute_all(lab, src.pipe(op), subs, until=H)
+    res = []
+    for p, eff, ticks in zip(probes, effs, tickss):
+        c = list(cls)
+        if H is not None:
+            eff = [m for m in eff if m[0] <= H]
+            ticks = [t for t in ticks if t <= H]
+        if any(m[0] in ticks for m in eff):
+            c.append("element-at-tick-instant")
+        if eff and eff[-1][1] == "C":
+            c.append("source-completes")
+        res.append(_judge_nt("sample", case, lab, p, outcomes(lambda ch, eff=eff, ticks=ticks: _exp_sample(eff, ticks, ch)), c, nelems({"tl": eff})))
+    return combine(res, subs)
 
 
 # ------------------------------------------------------------------------------ strategies
@@ -236,7 +258,7 @@ def _run_sample(case):
 def _rel_cases(draw, ds, alias=False, max_len=6):
     d = draw(st.sampled_from(ds))
     s0, spec = draw(sources(d=d, max_len=max_len))
-    c = {"clock": draw(st.sampled_from(CLOCKS)), "s0": s0, "src": spec, "d": d, "form": draw(st.sampled_from(FORMS))}
+    c = {"clock": draw(st.sampled_from(CLOCKS)), "s0": s0, "src": spec, "d": d, "form": draw(st.sampled_from(FORMS)), "s1": second_sub(draw, s0)}
     if alias:
         c["alias"] = draw(st.booleans())
     return c
@@ -246,7 +268,7 @@ def _rel_cases(draw, ds, alias=False, max_len=6):
 def _twm_cases(draw):
     s0, spec = draw(sources(d=2, kinds=("cold", "cold", "sync"), max_len=5))
     ths = [draw(triggers(max_t=4)) for _ in range(nelems(spec))]
-    return {"clock": draw(st.sampled_from(CLOCKS)), "s0": s0, "src": spec, "ths": ths}
+    return {"clock": draw(st.sampled_from(CLOCKS)), "s0": s0, "src": spec, "ths": ths, "s1": second_sub(draw, s0)}
 
 
 @st.composite
@@ -257,6 +279,7 @@ def _sample_cases(draw):
     if draw(st.booleans()):
         c["period"] = per
         c["form"] = draw(st.sampled_from(FORMS))
+        c["s1"] = second_sub(draw, s0)
     else:
         kind = draw(st.sampled_from(["cold", "cold", "hot"]))
         n = draw(st.integers(0, 6))
